@@ -453,6 +453,16 @@ func TestNodeSizes(t *testing.T) {
 				ev.Case(fmt.Sprintf("sweep/%s/%d", kind, L), len(n.Encode())%512 == 0, "size-sweep:"+kind)
 			}
 		}
+		// hashes only, far beyond: every value length up to three times 8704 bytes on a leaf (the sponge's block size is
+		// 136 bytes; chunked hashing would use multiples of it)
+		for L := 1301; L <= 26200; L++ {
+			n := util.NewLeafNode([]byte("ab"), []byte("cdef01"), util.Sequence(seed%5), mptkit.Val(value(L, byte(L))))
+			rn, err := refmpt.Parse(n.Encode())
+			if err != nil || !bytes.Equal(refmpt.Hash(rn), n.GetHashBytes()) {
+				t.Fatalf("leaf with a value of %d bytes: hash %x, reference hash of its encoding %x (%v)", L, n.GetHashBytes(), refmpt.Hash(rn), err)
+			}
+		}
+		ev.Case("hash-sweep/1301..26200", true, "hash-only-size-sweep")
 		for _, short := range []int{0, 1, 15, 16, 17 + int(seed%400), 1040} {
 			L := util.MPTMaxAllowableNodeSize - short
 			for kind, n := range map[string]util.Node{
